@@ -186,6 +186,7 @@ def run_input(case, out):
         udp.settle()
         out.label('via-udpcl')
     nontrivial = False
+    collided = False
     for fault in case['faults']:
         bad = apply_fault(wire, fault)
         if bad == wire:
@@ -227,6 +228,13 @@ def run_input(case, out):
         if new_rec or new_sent or grew:
             try:
                 got = r.decode(bad)
+                if r.all_crc_ok(got):
+                    # the damaged octets are a well-formed bundle again in which every CRC holds (a burst wider than the
+                    # CRC of the block it hit that happens to collide, one chance in 2^16 for CRC-16): no receiver can
+                    # tell it from a bundle that was sent like that
+                    out.count('corruptions_undetectable')
+                    collided = True
+                    continue
                 why = 'reference decoder: well-formed, crc ok=%s' % r.all_crc_ok(got)
                 klass = 'wellformed'
             except r.RefError as exc:
@@ -256,7 +264,7 @@ def run_input(case, out):
         err = node.receive(wire)
     if err is not None:
         out.fail('pristine-raises', 'the pristine bundle raised %s: %s' % (type(err).__name__, err))
-    elif len(node.sent()) == n_sent and len(node.records(False)) == n_rec:
+    elif len(node.sent()) == n_sent and len(node.records(False)) == n_rec and not collided:
         out.fail('pristine-ignored-after-corrupt', 'after the corrupted copies the pristine bundle is ignored (already recorded as seen?)')
     out.nontrivial = nontrivial
     out.label('input', 'faults:%s' % ('1bit' if all(f[1] == 1 for f in case['faults']) else 'burst'))
